@@ -49,6 +49,11 @@ def run(ctx):
     ctx.do(rule_id_rule)
     ctx.do(rule_regexes)
     ctx.do(rule_tlp)
+    # co-constraints (mutual exclusion, dependencies) are decided on PRESENCE: counting by truthiness lets a falsy-but-kept value
+    # (payload_bin='', lang='') through next to its exclusive partner, and both are emitted
+    from .C03 import rule_presence_by_membership
+    ctx.do(rule_presence_by_membership, rule_id="C02.constraints")
+    ctx.do(rule_definition_of_named_type)
     # timestamps are emitted with the digits their slot prescribes only if every value went through the truncation pipeline
     from . import C15
     ctx.do(C15.rule_truncate, rule_id="C02.timestamp-pipeline")
@@ -431,6 +436,48 @@ def _len_raise_region(fi, var_names=None):
     return out
 
 
+def rule_definition_of_named_type(ctx, rule_id="C02.constraints"):
+    """marking-definition: `definition` must be of the kind `definition_type` names.  The only place that ties the two together
+    is MarkingDefinition.__init__: it looks the class up by definition_type and rebuilds the definition with that class UNLESS
+    the value already is an instance of it.  MarkingProperty.clean afterwards accepts an instance of ANY registered marking
+    class, so a weaker skip-test (any library object, any marking) lets definition_type 'statement' be emitted with a TLP
+    definition -- and the TLP instance check, keyed on definition_type, is bypassed."""
+    run = ctx.run
+    prog = ctx.prog
+    from ..cfg import ReachingDefs, cfg_of
+    n = 0
+    for mod in ("stix2.v20.common", "stix2.v21.common"):
+        cls = prog.cls(mod + "::MarkingDefinition")
+        init = cls.methods.get("__init__")
+        if init is None:
+            raise AnalysisError("anchor missing: %s::MarkingDefinition.__init__" % mod)
+        g = cfg_of(init)
+        rd = ReachingDefs(g, init.all_param_names())
+        kw = init.kwarg or "kwargs"
+        slot = "%s['definition']" % kw
+        rebuilds = [a_ for a_ in body_walk(init.node) if isinstance(a_, ast.Assign) and norm(a_.targets[0]) == slot
+                    and isinstance(a_.value, ast.Call) and isinstance(a_.value.func, ast.Name)]
+        if not rebuilds:
+            raise AnalysisError("%s::MarkingDefinition.__init__: the definition is not rebuilt from a looked-up class any more" % mod)
+        for a_ in rebuilds:
+            n += 1
+            cname = a_.value.func.id
+            defs = [v for _d, v in rd.reaching(g.node_of(a_), cname)]
+            by_type = bool(defs) and all(isinstance(v, ast.Subscript) and norm(v.slice) == "%s['definition_type']" % kw for v in defs)
+            gc = [(norm(t), pol) for t, pol, _ in guard_chain(a_)]
+            want = "isinstance(%s, %s)" % (slot, cname)
+            exact = any((t == want and not pol) or (t == "not " + want and pol) for t, pol in gc)
+            others = [t for t, pol in gc if "isinstance(" in t and want not in t]
+            run.check(by_type and exact and not others, rule_id, key(init.module.relpath, init.qualname, "definition-is-of-the-named-type"),
+                      "the definition is left as given under a test other than 'is already an instance of the class definition_type "
+                      "names': an already-built marking object of ANOTHER kind is kept, and the object is emitted with a "
+                      "definition_type that does not match its definition", file=init.module.relpath, line=a_.lineno,
+                      function=init.qualname, expected="if not isinstance(%s, %s): rebuild with %s (looked up by definition_type)" % (
+                          slot, cname, cname), found=[t for t, _p in gc])
+    if n < 2:
+        raise AnalysisError("fewer than 2 marking-definition constructors found")
+
+
 def rule_init_loops(ctx, rule_id="C02.init-pipeline"):
     """Every loop of the constructor runs over ALL its elements (extensions, properties, defaults): a `break` after the first
     unregistered extension leaves later registered ones unexamined -- their properties are then stored uncleaned."""
@@ -451,6 +498,34 @@ def rule_init_loops(ctx, rule_id="C02.init-pipeline"):
                   found=short(exits[0]) if exits else None)
     if n < 4:
         raise AnalysisError("_STIXBase.__init__: fewer than 4 loops found (%d)" % n)
+
+
+def range_guard_table(fi):
+    """{(bound attribute, comparison operator with the value on the left, 'guarded-by-<attr>')} of the `raise ValueError` guards
+    of a numeric cleaner"""
+    guards = set()
+    for ifn, rs in if_raising(fi):
+        if not any(isinstance(s, ast.Raise) and exc_name(s) == "ValueError" for s in ifn.body):
+            continue
+        cj = conjuncts(ifn.test)
+        cmp_ = [x for x in cj if isinstance(x, ast.Compare) and len(x.ops) == 1 and not isinstance(x.ops[0], (ast.Is, ast.IsNot))]
+        nn = [x for x in cj if isinstance(x, ast.Compare) and len(x.ops) == 1 and isinstance(x.ops[0], ast.IsNot)
+              and isinstance(x.comparators[0], ast.Constant) and x.comparators[0].value is None]
+        if len(cmp_) != 1 or len(nn) != 1 or len(cj) != 2:
+            guards.add(("unrecognised", short(ifn.test)))
+            continue
+        c = cmp_[0]
+        l, rr, op = c.left, c.comparators[0], type(c.ops[0])
+        flip = {ast.Lt: ast.Gt, ast.Gt: ast.Lt, ast.LtE: ast.GtE, ast.GtE: ast.LtE}
+        if isinstance(rr, ast.Name) and isinstance(l, ast.Attribute):
+            l, rr, op = rr, l, flip.get(op, op)
+        if isinstance(l, ast.Name) and isinstance(rr, ast.Attribute) and isinstance(rr.value, ast.Name) and rr.value.id == "self":
+            bound_attr = rr.attr
+            nn_attr = nn[0].left.attr if isinstance(nn[0].left, ast.Attribute) else None
+            guards.add((bound_attr, op.__name__, "guarded-by-" + str(nn_attr)))
+        else:
+            guards.add(("unrecognised", short(ifn.test)))
+    return guards
 
 
 def rule_clean_contract(ctx):
@@ -519,29 +594,7 @@ def rule_clean_contract(ctx):
             run.check(ok, R, key(rel, fi.qualname, "returns-converted-value"),
                       "the value returned is not (only) the %s() conversion result" % conv, file=rel, line=r.lineno,
                       function=fi.qualname, expected="%s(value)" % conv, found=found)
-        # the conversion failure must raise ValueError
-        guards = set()
-        for ifn, rs in if_raising(fi):
-            if not any(isinstance(s, ast.Raise) and exc_name(s) == "ValueError" for s in ifn.body):
-                continue
-            cj = conjuncts(ifn.test)
-            cmp_ = [x for x in cj if isinstance(x, ast.Compare) and len(x.ops) == 1 and not isinstance(x.ops[0], (ast.Is, ast.IsNot))]
-            nn = [x for x in cj if isinstance(x, ast.Compare) and len(x.ops) == 1 and isinstance(x.ops[0], ast.IsNot)
-                  and isinstance(x.comparators[0], ast.Constant) and x.comparators[0].value is None]
-            if len(cmp_) != 1 or len(nn) != 1 or len(cj) != 2:
-                guards.add(("unrecognised", short(ifn.test)))
-                continue
-            c = cmp_[0]
-            l, rr, op = c.left, c.comparators[0], type(c.ops[0])
-            flip = {ast.Lt: ast.Gt, ast.Gt: ast.Lt, ast.LtE: ast.GtE, ast.GtE: ast.LtE}
-            if isinstance(rr, ast.Name) and isinstance(l, ast.Attribute):
-                l, rr, op = rr, l, flip.get(op, op)
-            if isinstance(l, ast.Name) and isinstance(rr, ast.Attribute) and isinstance(rr.value, ast.Name) and rr.value.id == "self":
-                bound_attr = rr.attr
-                nn_attr = nn[0].left.attr if isinstance(nn[0].left, ast.Attribute) else None
-                guards.add((bound_attr, op.__name__, "guarded-by-" + str(nn_attr)))
-            else:
-                guards.add(("unrecognised", short(ifn.test)))
+        guards = range_guard_table(fi)
         tables[cid] = guards
         want = {("min", "Lt", "guarded-by-min"), ("max", "Gt", "guarded-by-max")}
         run.check(guards == want, R, key(rel, fi.qualname, "range-guards"),
